@@ -259,19 +259,24 @@ Record mstate := {
   mcap : Z;                          (* spec.MaxAllowedConnection; <= 0 = unlimited *)
   clients : list (string * N);       (* Broker.clients: client id -> registered connection *)
   checked : list N;                  (* connections past checkConnectPermission, before the locked section *)
-  live : list (N * string)           (* registered connections whose readLoop has not torn down yet *)
+  live : list (N * string);          (* accepted connections whose readLoop has not torn down yet *)
+  dead : list N;                     (* connections whose Client.close() has run (superseded / deleted): not served any more *)
+  dels : list (string * option N)    (* deleteSession calls between their two critical sections: (id, client looked up) *)
 }.
 
 Inductive mlabel :=
 | MCheck (k : N)                              (* checkConnectPermission of a new connection k *)
 | MCommit (k : N) (cid : string) (wfail : bool) (* locked section of handleConn + CONNACK write (wfail: write fails) *)
 | MTeardown (k : N)                           (* readLoop of k ends: closeAndDelSession; removeClient *)
-| MDelete (cid : string).                     (* deleteSession (storage watcher / admin API): unconditional removal *)
+| MDelete (cid : string)                      (* deleteSession under ONE critical section (the code as it is): close + removal *)
+| MDelLookup (cid : string)                   (* deleteSession split in two critical sections: look-up + close ... *)
+| MDelRemove (i : nat).                       (* ... and the removal, which must re-check the looked-up client *)
 
 (** CONNACK return codes (paho): 0 accepted, 3 server unavailable; [MNone] = nothing sent / not applicable *)
 Inductive mout := MAccepted | MRefused | MPassed | MNone.
 
-Definition minit (cap : Z) : mstate := {| mcap := cap; clients := []; checked := []; live := [] |}.
+Definition minit (cap : Z) : mstate :=
+  {| mcap := cap; clients := []; checked := []; live := []; dead := []; dels := [] |}.
 
 Definition clen (s : mstate) : Z := Z.of_nat (List.length (clients s)).
 
@@ -300,36 +305,62 @@ Definition remove_own (k : N) (cid : string) (cl : list (string * N)) : list (st
   | None => cl
   end.
 
+Definition mset (s : mstate) (cl : list (string * N)) (ch : list N) (lv : list (N * string))
+           (dd : list N) (dl : list (string * option N)) : mstate :=
+  {| mcap := mcap s; clients := cl; checked := ch; live := lv; dead := dd; dels := dl |}.
+
+Definition opt_cons (o : option N) (l : list N) : list N := match o with Some k => k :: l | None => l end.
+
+Definition optN_eqb (a b : option N) : bool :=
+  match a, b with Some x, Some y => N.eqb x y | None, None => true | _, _ => false end.
+
+(** connections that are served: accepted, not torn down, Client.close() not run *)
+Definition served (s : mstate) : list (N * string) := filter (fun e => negb (mem_N (fst e) (dead s))) (live s).
+Definition nserved (s : mstate) : Z := Z.of_nat (List.length (served s)).
+
 Definition mstep (q : quirks) (s : mstate) (l : mlabel) : mstate * mout :=
   match l with
   | MCheck k =>
       if mem_N k (checked s) || (match live_cid k (live s) with Some _ => true | None => false end)
       then (s, MNone)
       else if at_cap s then (s, MRefused)
-      else ({| mcap := mcap s; clients := clients s; checked := k :: checked s; live := live s |}, MPassed)
+      else (mset s (clients s) (k :: checked s) (live s) (dead s) (dels s), MPassed)
   | MCommit k cid wfail =>
       if negb (mem_N k (checked s)) then (s, MNone) else
       let ch := remove_N k (checked s) in
-      let taken := match alookup cid (clients s) with Some _ => true | None => false end in
+      let old := alookup cid (clients s) in
+      let taken := match old with Some _ => true | None => false end in
       if negb taken && at_cap s then
-        ({| mcap := mcap s; clients := clients s; checked := ch; live := live s |}, MRefused)
+        (mset s (clients s) ch (live s) (dead s) (dels s), MRefused)
       else
         let cl := (cid, k) :: aremove cid (clients s) in
+        let dd := opt_cons old (dead s) in       (* takeover: go oldClient.close() *)
         if wfail then
           (* connack.Write fails: handleConn returns, no readLoop *)
           if q_mqtt_connack_fail_leaks q
-          then ({| mcap := mcap s; clients := cl; checked := ch; live := live s |}, MNone)
-          else ({| mcap := mcap s; clients := aremove cid cl; checked := ch; live := live s |}, MNone)
-        else ({| mcap := mcap s; clients := cl; checked := ch; live := (k, cid) :: live s |}, MAccepted)
+          then (mset s cl ch (live s) dd (dels s), MNone)
+          else (mset s (aremove cid cl) ch (live s) dd (dels s), MNone)
+        else (mset s cl ch ((k, cid) :: live s) dd (dels s), MAccepted)
   | MTeardown k =>
       match live_cid k (live s) with
       | None => (s, MNone)
       | Some cid =>
-          ({| mcap := mcap s; clients := remove_own k cid (clients s); checked := checked s;
-              live := live_remove k (live s) |}, MNone)
+          (mset s (remove_own k cid (clients s)) (checked s) (live_remove k (live s)) (dead s) (dels s), MNone)
       end
   | MDelete cid =>
-      ({| mcap := mcap s; clients := aremove cid (clients s); checked := checked s; live := live s |}, MNone)
+      (mset s (aremove cid (clients s)) (checked s) (live s) (opt_cons (alookup cid (clients s)) (dead s)) (dels s), MNone)
+  | MDelLookup cid =>
+      let old := alookup cid (clients s) in
+      (mset s (clients s) (checked s) (live s) (opt_cons old (dead s)) (dels s ++ [(cid, old)]), MNone)
+  | MDelRemove i =>
+      match nth_error (dels s) i with
+      | None => (s, MNone)
+      | Some (cid, old) =>
+          (* the entry is removed only if it still is the client that was looked up and closed:
+             a same-id reconnect registered in between is left alone *)
+          let cl := if optN_eqb (alookup cid (clients s)) old then aremove cid (clients s) else clients s in
+          (mset s cl (checked s) (live s) (dead s) (remove_nth i (dels s)), MNone)
+      end
   end.
 
 Fixpoint mrun (q : quirks) (s : mstate) (ls : list mlabel) : mstate :=
